@@ -63,10 +63,18 @@ ASSUMPTIONS = [
     "needing constructor arguments, which is modelled)",
     "the data attributes of built-in exception classes are writable on a __new__-created instance (checked by the "
     "oracle on every class of this interpreter; a hypothesis `Writable` of the fidelity theorem)",
-    "a bare StopIteration (no arguments) travels as a marker: class and empty args are preserved, no traceback or "
-    "version text is attached to it (iterator protocol end marker; not counted as a deviation)",
-    "received exceptions carry extra instance attributes (`add_note` holding a repr string, on Python >= 3.11): the "
-    "statement speaks of the same immutable public DATA attributes; extras are allowed and not compared by the oracle",
+    "a bare StopIteration (no arguments) travels as a marker (the iterator protocol's end signal): class and empty args are "
+    "preserved, but NO traceback or version text is attached and any extra instance attributes it carried are lost — an "
+    "admitted deviation from 'same data' (Faithful and the oracle exempt the marker path; generated and compared; a one-line "
+    "repair would be to take the marker path only when the instance __dict__ is empty as well)",
+    "a relaying peer that received an exception from a peer on ANOTHER MAJOR VERSION appends 'WARNING: Remote is on RPyC x and "
+    "local is on RPyC y' to the traceback text it keeps; if it raises the exception on with include_local_traceback on and "
+    "include_local_version off, its version y reaches the third party inside that text (Derived.__str__ embeds it): a "
+    "disclosure contrary to the switch, generated (foreign two-hop cases), compared, flagged by the two-hop oracle as "
+    "C09:relay-discloses-version; no repair that keeps tests/test_remote_exception.py (it asserts the warning's wording)",
+    "methods are not data: `dump` leaves out every attribute whose value is callable (measured: Gen.Vinegar.skipsCallables; "
+    "before that repair Python >= 3.11's `add_note` travelled as its repr and shadowed the method on every received exception); "
+    "the oracle demands that no instance attribute of the received exception shadows a method of its class",
     "module names containing NUL or lone surrogates (only obtainable by assigning __module__) make `type()` refuse the "
     "generic stand-in's name (ValueError / UnicodeEncodeError out of load): modelled and compared, not demanded by the oracle",
 ]
@@ -79,8 +87,8 @@ EXPLANATION = ("C09_partial_interpreter: for EVERY built-in exception class of t
                "stand-in named module.class); no_import / no_init / outcome_allowed for EVERY payload value. "
                "C09_statement is false of the code on this interpreter: C09_counterexample_group (classes whose "
                "__new__ needs arguments: BaseExceptionGroup, ExceptionGroup) — C09_partial covers all other classes. "
-               "Oracle notes: compares data attributes only (extras such as `add_note` ignored); a bare StopIteration is "
-               "not required to carry a traceback.")
+               "Oracle notes: compares data attributes only and demands that no method is shadowed by an instance attribute; "
+               "a bare StopIteration is not required to carry a traceback.")
 
 SENDS = [a + b for a in "TF" for b in "TF"]
 RECVS = [a + b + c for a in "TF" for b in "TF" for c in "TF"]
@@ -261,9 +269,10 @@ def correspondence(ctx):
         s1, r1 = r.choice(SENDS) + "FF", r.choice(RECVS)
         cfg2 = ALL32 if (i % 40 == 7 and ctx.tier == "thorough") else [(r.choice(SENDS) + "FF", r.choice(RECVS))
                                                                      for _ in range(ctx.budget(2, 6))]
+        foreign = (i % 9 == 4)      # the first sender runs another major version: the relay's version warning travels on
         try:
-            for s2, r2, line, obs, info in vc.two_hop_product(spec, s1, r1, cfg2):
-                add(dict(kind="exc2", spec=spec, s=s1, r=r1, s2=s2, r2=r2, mode="direct"), ["pay", "imp", "init", "code", "out", "seen"],
+            for s2, r2, line, obs, info in vc.two_hop_product(spec, s1, r1, cfg2, foreign):
+                add(dict(kind="exc2", spec=spec, s=s1, r=r1, s2=s2, r2=r2, mode="direct", foreign=foreign), ["pay", "imp", "init", "code", "out", "seen"],
                     line, obs, info, "two-hop:direct", _sig_exc("2d", spec, s1[:2] + s2[:2], r1 + r2, obs["seen"]))
         except (vc.Skip, ve.Unrepresentable) as ex:
             c.count("skipped:" + str(ex)[:40])
@@ -480,6 +489,12 @@ def oracle_exc(spec, s, r, mode="direct", known=()):
                         % (m, c, r, type(seen).__mro__[1:2])), "C09:custom-class-instantiated"
             if type(seen).__name__ != "%s.%s" % (m, c):
                 return "the generic stand-in is named %r, not %s.%s" % (type(seen).__name__, m, c), "C09:generic-name"
+    # --- the received object is usable as an exception of its class: no instance attribute shadows a method
+    C = type(seen).__mro__[1] if vinegar_made(seen) else type(seen)
+    for k, v in (vars(seen).items() if hasattr(seen, "__dict__") else ()):
+        if callable(getattr(C, k, None)) and not callable(v):
+            return ("the received exception has an instance attribute %s = %r that shadows the method %s.%s"
+                    % (k, str(v)[:60], C.__name__, k)), "C09:method-shadowed"
     # --- arguments and data attributes (an exception whose arguments cannot be serialized keeps its class only:
     # the documented fallback of Connection._send_exception)
     want = normal_args(exc.args) if not unser else ()
@@ -491,7 +506,8 @@ def oracle_exc(spec, s, r, mode="direct", known=()):
         if sig in known:
             return None
         return ("args %s surfaced as %s" % (valtext.to_text(want)[:120], valtext.canon(tuple(seen.args))[:120])), sig
-    for n in dir(exc) if not unser else ():
+    marker_path = t is StopIteration and not exc.args      # travels as a marker: class and (empty) args only, see ASSUMPTIONS
+    for n in dir(exc) if not (unser or marker_path) else ():
         if n.startswith("_") or n == "args":
             continue
         try:
@@ -524,7 +540,7 @@ def oracle_exc(spec, s, r, mode="direct", known=()):
     return None
 
 
-def oracle_exc2(spec, s1, r1, s2, r2, mode="direct", known=()):
+def oracle_exc2(spec, s1, r1, s2, r2, mode="direct", known=(), foreign=False):
     """two hops: the exception is received by one peer and raised on to another; the class surfacing at the final requester is
     the original's (same rule as one hop), with the same normalised arguments; nothing is imported or constructed unless allowed"""
     from rpyc.core import vinegar, brine
@@ -544,7 +560,7 @@ def oracle_exc2(spec, s1, r1, s2, r2, mode="direct", known=()):
     with ve.ImportWatch() as w:
         try:
             if mode == "direct":
-                obj = vc.first_hop(spec, s1, r1)
+                obj = vc.first_hop(spec, s1, r1, foreign)
                 if obj is None:
                     return None                   # the first hop alone already fails: a one-hop matter
                 t2, v2, tb2 = vc.capture(obj)
@@ -596,6 +612,13 @@ def oracle_exc2(spec, s1, r1, s2, r2, mode="direct", known=()):
     rtb = getattr(final, "_remote_tb", None)
     if not vc.flags(s2)[0] and type(rtb) is str and "Traceback (most recent call last)" in rtb:
         return "the second sender withholds tracebacks but one was disclosed", "C09:traceback-disclosed"
+    import rpyc.version
+    if not vc.flags(s2)[1] and isinstance(final, BaseException) and "C09:relay-discloses-version" not in known:
+        texts = [repr(getattr(final, "args", ()))] + [repr(v) for v in (vars(final).values() if hasattr(final, "__dict__") else ())]
+        if any(rpyc.version.version_string in t_ for t_ in texts):
+            return ("the relaying peer withholds its version (include_local_version off) but %r reached the final requester "
+                    "(inside the version warning it appended to the traceback text it passes on)"
+                    % rpyc.version.version_string), "C09:relay-discloses-version"
     return None
 
 
@@ -673,7 +696,8 @@ BOUNDARY_PAYLOADS = [
 
 def _case_oracle(case, known):
     if case["kind"] == "exc2":
-        return oracle_exc2(case["spec"], case["s"], case["r"], case["s2"], case["r2"], case.get("mode", "direct"), known)
+        return oracle_exc2(case["spec"], case["s"], case["r"], case["s2"], case["r2"], case.get("mode", "direct"), known,
+                           case.get("foreign", False))
     if case["kind"] == "exc":
         return oracle_exc(case["spec"], case["s"], case["r"], case.get("mode", "direct"), known)
     return oracle_payload(vc.value_of(case["payload"]), case["r"], case.get("mode", "direct"), known)
@@ -769,7 +793,8 @@ def replay(case):
     try:
         if case["kind"] == "exc2":
             if mode == "direct":
-                for _s2, _r2, line, obs, _info in vc.two_hop_product(case["spec"], case["s"], case["r"], [(case["s2"], case["r2"])]):
+                for _s2, _r2, line, obs, _info in vc.two_hop_product(case["spec"], case["s"], case["r"], [(case["s2"], case["r2"])],
+                                                                     case.get("foreign", False)):
                     break
             else:
                 pair = vc.RelayPair(case["s"], case["r"], case["s2"], case["r2"])
